@@ -1008,6 +1008,13 @@ func (w *World) opWipeKeyBuffer(step int) {
 		copy(sg.supplied, w.t.Bytes("ops", "wipe.rnd", len(sg.supplied)))
 	}
 	sg.supplied = nil
+	if sg.suppliedSch != nil {
+		for i := range sg.suppliedSch {
+			sg.suppliedSch[i] ^= 0x3c
+		}
+		sg.suppliedSch = nil
+		w.r.Fault("caller_overwrites_schnorr_key_buffer")
+	}
 	w.r.Fault("caller_overwrites_key_buffer")
 	w.r.Hist("%d caller overwrites the buffer it passed to NewPrivateKey for key %d", step, ki)
 	// ... and whatever the accessors of the key hand out
@@ -1031,6 +1038,17 @@ func (w *World) opWipeKeyBuffer(step int) {
 		}
 		return
 	}
+	// a BIP-340 signature with the key whose buffers are gone: still the
+	// model's (the values its accessors hand out are overwritten as well)
+	sb := sg.sch.Bytes()
+	for i := range sb {
+		sb[i] ^= 0x5a
+	}
+	xb := sg.sch.PublicKey().Bytes()
+	for i := range xb {
+		xb[i] = 0xff
+	}
+	w.runSchnorr(step, ki, w.genMsg("ops"), kernel.DevCfg{Payload: kernel.PayScripted, Script: w.t.Bytes("ops", "wipe.aux", 32), ErrAt: -1}, false)
 	// sign the latest event of this key again: identical inputs, identical output
 	for i := len(w.events) - 1; i >= 0; i-- {
 		ev := w.events[i]
